@@ -939,7 +939,10 @@ def inline_unknown(trees_by_relpath, unknown, report):
                             is_m = any(h.node is st and h.cls is not None for h in helpers.values())
                             calls, other = references(trees_by_relpath.values(), st.name, method=is_m)
                             own = sum(1 for n in ast.walk(st) if isinstance(n, ast.Call) and _callee_name(n) == st.name)
-                            if calls - own == 0 and other == 0:
+                            hq = next((h.qual for h in helpers.values() if h.node is st), None)
+                            was_inlined = any(r[0] in ("inlined", "inlined-expr", "inlined-generator") and r[1] == hq for r in report)
+                            if calls - own == 0 and other == 0 and was_inlined:
+                                # (a helper nobody refers to syntactically may still be reached by name: getattr(self, '..'))
                                 report.append(("removed-helper", f"{rel}:{st.name}"))
                                 continue
                     elif isinstance(st, ast.ClassDef):
